@@ -295,11 +295,19 @@ def rule_r4(p, res):
     r.instance(gi)
     gg = cfgmod.build(gi.node)
     grp = gi.params[1]
-    res_none = [n for n in walk_own(gi.node) if isinstance(n, ast.Assign) and norm(n.targets[0]) == grp]
-    okn = len(res_none) == 1 and [(norm(t), pol) for t, pol in gg.guards(res_none[0])] == [("%s is None" % grp, True), ("self.n_groups == 1", True)] and norm(res_none[0].value) == "self.group_labels[0]"
-    r.check(okn, gi, gi.node, "the None key may resolve to a group only when exactly one group exists")
+    # wherever the sole group's label is looked up, the key is None and there is exactly one group (spelling of the tests is free)
+    def _pos(t, pol):
+        s_ = str(norm(t))
+        for neg, posop in ((" is not ", " is "), (" != ", " == ")):
+            if neg in s_:
+                return s_.replace(neg, posop), not pol
+        return s_, pol
+    uses = [stmt_of(n) for n in ast.walk(gi.node) if isinstance(n, ast.Subscript) and norm(n) == "self.group_labels[0]"]
+    need(uses, "C06.R4: the resolution of the None key (self.group_labels[0]) was not found in __getitem__")
+    okn = all({_pos(t, pol) for t, pol in gg.guards(u)} == {("%s is None" % grp, True), ("self.n_groups == 1", True)} for u in uses)
+    r.check(okn, gi, uses[0], "the None key may resolve to a group only when exactly one group exists (guards found: %s)" % [sorted(_pos(t, pol) for t, pol in gg.guards(u)) for u in uses])
     rs = [n for n in walk_own(gi.node) if isinstance(n, ast.Raise)]
-    r.check(any([(norm(t), pol) for t, pol in gg.guards(n)] == [("%s is None" % grp, True), ("self.n_groups == 1", False)] for n in rs), gi, gi.node, "the None key must be refused for zero or several groups")
+    r.check(any({_pos(t, pol) for t, pol in gg.guards(n)} == {("%s is None" % grp, True), ("self.n_groups == 1", False)} for n in rs), gi, gi.node, "the None key must be refused for zero or several groups")
     r.check(norm(returns_of(gi.node)[0].value) == "self._landmark_groups[%s]" % grp, gi, gi.node, "lookup must read the stored group")
     dflt = gi.defaults().get(grp)
     r.check(isinstance(dflt, ast.Constant) and dflt.value is None, gi, gi.node, "the group key defaults to None")
